@@ -89,8 +89,23 @@ func runC11Inner(c *C11Case) (string, string) {
 }
 
 func cdRoundTrip(num uint16, data []byte) (string, string) {
+	if k, m := cdRoundTripWith(num, data, false); k != "" {
+		return k, m
+	}
+
+	// the same through a reused ChannelData value whose buffer still holds an earlier, longer message
+	return cdRoundTripWith(num, data, true)
+}
+
+func cdRoundTripWith(num uint16, data []byte, reuse bool) (string, string) {
 	// library encode → reference decode
 	cd := proto.ChannelData{Number: proto.ChannelNumber(num), Data: data}
+	if reuse {
+		cd.Number, cd.Data = 0x7ABC, bytes.Repeat([]byte{0xAB}, len(data)+13)
+		cd.Encode()
+		cd.Reset()
+		cd.Number, cd.Data = proto.ChannelNumber(num), data
+	}
 	cd.Encode()
 	raw := cd.Raw
 	if len(raw)%4 != 0 {
